@@ -97,7 +97,7 @@ func c15History(ctx *core.Ctx, idx int) core.Result {
 			}
 		}
 	case 2: // one function whose body needs long jumps / many constants
-		n := []int{3000, 8000, 10900, 10950, 16000, 33000}[r.Intn(6)]
+		n := []int{3000, 8000, 10900, 10950, 16000, 33000}[(idx/4)%6]
 		in["kind"] = fmt.Sprintf("function body of %d statements inside an if (jump distance)", n)
 		var sb strings.Builder
 		sb.WriteString("zf = (q) -> {\n if q > 0 {\n")
@@ -119,7 +119,7 @@ func c15History(ctx *core.Ctx, idx int) core.Result {
 			return fail(bad)
 		}
 	default: // many locals / many arguments
-		n := []int{300, 32766, 32767, 32768, 32769, 40000, 65535, 65536, 65537, 70000}[r.Intn(10)]
+		n := []int{300, 32766, 32767, 32768, 32769, 40000, 65535, 65536, 65537, 70000}[(idx/4)%10]
 		in["kind"] = fmt.Sprintf("function with %d parameters called with %d arguments", n, n)
 		ps := make([]string, n)
 		as := make([]string, n)
@@ -127,13 +127,29 @@ func c15History(ctx *core.Ctx, idx int) core.Result {
 			ps[i] = cName(i)
 			as[i] = "1"
 		}
-		def := "zf = (" + strings.Join(ps, ", ") + ") -> " + ps[0] + " + " + ps[n-1]
+		last := n - 1
+		if last > 100 && (idx/4)%2 == 1 {
+			last = 100 // only low parameters referenced: the definition itself addresses nothing out of range
+		}
+		def := "zf = (" + strings.Join(ps, ", ") + ") -> " + ps[0] + " + " + ps[last]
 		if bad := check(def, "", false); bad != "" {
 			return fail(bad)
 		}
 		call := "write(zf(" + strings.Join(as, ", ") + "))"
 		if bad := check(call, "2", false); bad != "" {
 			return fail(bad)
+		}
+		if n > 65535 {
+			// a call with the wrapped-around argument count must not succeed either
+			m := n - 65536
+			out, pan := feed("write(\"ran:\" + toa(zf("+strings.Join(as[:m], ", ")+")))", false)
+			if pan != nil {
+				return fail(fmt.Sprintf("call with %d arguments aborted: %v", m, pan))
+			}
+			if strings.HasPrefix(out, "ran:") {
+				return fail(fmt.Sprintf("a function defined with %d parameters accepted a call with %d arguments (parameter count wrapped around): printed %q", n, m, trunc(out, 100)))
+			}
+			res.Tag("history:wrapped-arity-probe")
 		}
 		if bad := check("write(5)", "5", false); bad != "" {
 			return fail(bad)
